@@ -2230,6 +2230,11 @@ class Verifier(Engine):
             elif fs.exits_iff is not None:
                 V = self.sv(fs.exits_iff.expr, st)
                 st.assume(z3.Not(V) if mode == 'accept' else V)
+            if getattr(self, 'fallback_unroll', None):
+                # bounded fallback explores small instances only: sequences of at most three elements
+                for pn, pt, br in f.params:
+                    v_ = st.env.get(pn)
+                    if isinstance(v_, Seq): st.assume(v_.n <= self.fallback_unroll)
             for u in fs.uses: self.use_lemma(u, st)
             st.old = dict(st.env)
             self.entry_dec = self.sv(fs.decreases.expr, st) if fs.decreases is not None else None
